@@ -35,7 +35,7 @@ SRCS = ["replay_psi.c", "lib/upipe/umem_alloc.c", "lib/upipe/udict_inline.c", "l
         "lib/upipe/ubuf_block_mem.c", "lib/upipe/ubuf_mem_common.c", "lib/upipe/uprobe.c",
         "lib/upipe-ts/upipe_ts_psi_merge.c", "lib/upipe-ts/upipe_ts_psi_split.c",
         "lib/upipe-ts/upipe_ts_psi_join.c"]
-FLAGS = ["-I", vlib.HARNESS + "/shim"]
+FLAGS = ["-I", vlib.HARNESS + "/shim", "-Wl,--wrap=malloc"]
 TRACE = ("PsiSections_Trace", "PsiSections_Trace.cfg")
 PIPECMD = {"merge": "merger", "split": "splitter", "join": "joiner"}
 
@@ -94,7 +94,7 @@ def merge_result(exe, out):
     for st in exe.steps:
         ev = dict(st["ev"])
         if st["cmd"] is None:               # lost payload: nothing was given to the pipe
-            ev.update({"n": 0, "out": []})
+            ev.update({"n": 0, "out": [], "rf": 0})
             evs.append(ev)
             res.append(None)
             continue
@@ -108,7 +108,7 @@ def merge_result(exe, out):
         tag = line.split(" ", 1)[0]
         res.append(d)
         if tag == "pay":
-            ev.update({"n": int(d["n"]), "out": ilist(d["out"])})
+            ev.update({"n": int(d["n"]), "out": ilist(d["out"]), "rf": int(d.get("rf", 0))})
         elif tag == "addout":
             ev["r"] = 0 if d["r"] == "0,0" else 1
         elif tag == "delout" or tag == "jdel":
@@ -224,11 +224,13 @@ def rand_segs(rng, size):
     return "+".join(str(p) for p in parts)
 
 
-def pay_step(st, di, dr, ptr, runs, stuff, segs):
+def pay_step(st, di, dr, ptr, runs, stuff, segs, refuse=0):
+    """refuse = k: the k-th allocation the library makes during this input is refused (the event says how many
+    were: rf)."""
     ev = {"e": "Pay", "st": st, "di": di, "dr": dr, "ptr": ptr, "runs": runs, "stuff": stuff}
     if dr:
         return {"cmd": None, "ev": ev}
-    flags = ("s" if st else "") + ("d" if di else "") or "-"
+    flags = ("s" if st else "") + ("d" if di else "") + ("fgh"[refuse - 1] if refuse else "") or "-"
     rs = ",".join("%d:%d:%d" % tuple(r) for r in runs) or "-"
     cmd = "pay %s %d %s %d" % (flags, ptr, rs, stuff)
     if segs:
@@ -321,7 +323,8 @@ def rand_merge_exe(rng, real):
         elif c == 1:
             dr = 1
         size = st + sum(r[2] - r[1] for r in runs) + stuff
-        steps.append(pay_step(st, di, dr, ptr, runs, stuff, rand_segs(rng, size)))
+        refuse = 1 + rng.below(3) if (not dr and rng.chance(1, 12)) else 0
+        steps.append(pay_step(st, di, dr, ptr, runs, stuff, rand_segs(rng, size), refuse))
         pdisc = 1 if dr else 0
         if rng.chance(1, 6):
             # the upstream sends its flow definition again (an attribute changed, or its output was set again):
